@@ -455,7 +455,11 @@ where
             let this = self.as_mut().project();
             (
                 this.flags.contains(Flags::DRAINING),
+                // if later requests are already queued, `payload` belongs to the last of them,
+                // not to the request being answered (whose payload must have been complete for
+                // the next head to be decoded)
                 !is_upgrade
+                    && this.messages.is_empty()
                     && should_close_for_unread_payload(
                         this.payload.as_ref(),
                         *this.payload_drainable,
@@ -505,7 +509,11 @@ where
             let this = self.as_mut().project();
             (
                 this.flags.contains(Flags::DRAINING),
+                // if later requests are already queued, `payload` belongs to the last of them,
+                // not to the request being answered (whose payload must have been complete for
+                // the next head to be decoded)
                 !is_upgrade
+                    && this.messages.is_empty()
                     && should_close_for_unread_payload(
                         this.payload.as_ref(),
                         *this.payload_drainable,
